@@ -92,7 +92,7 @@ pub fn execute(c: &CCfg, seed: u64) -> W {
     stepper.rgate = 0;
     let scripts = vec![stepper.clone(), Script::plain(), stepper];
     let ctx = Ctx::new(ScriptSrc::Table(scripts), 2, seed, c.perturb, false);
-    let w = W::new(ctx, vec![StoreCfg { policy: c.policy, cap: c.cap, n_red: c.n_red, n_mw: c.n_mw, name: "rsvc".into() }]);
+    let w = W::new(ctx, vec![StoreCfg { policy: c.policy, cap: c.cap, n_red: c.n_red, n_mw: c.n_mw, name: "rsvc".into(), ctor: 0 }]);
     let notified = std::sync::Arc::new(Counter::new());
     let keep = w.add_direct_counted(0, true, notified.clone());
     let returned = Counter::new();
